@@ -20,6 +20,7 @@ mod c10;
 mod c13;
 mod c20;
 mod c19;
+mod c19_pols;
 mod gen_typed;
 mod c03;
 mod gen_schema_text;
@@ -91,6 +92,7 @@ fn main() {
                 "c19" => c19::run(&args, &mut out),
                 "c19h" => c19::run_histories(&args, &mut out),
                 "c19cli" => c19::run_cli(&args, &mut out),
+                "c19p" => c19_pols::run(&args, &mut out),
                 "c03" => c03::run(&args, &mut out),
                 "c09" => c09::run(&args, &mut out),
                 "c18" => c18::run(&args, &mut out),
